@@ -20,6 +20,8 @@ struct Ctx {
     thorough: bool,
     sites_seen: BTreeMap<String, u64>,
     site_apis: BTreeMap<String, BTreeSet<String>>,
+    /// (kind, depth) at which merely dropping a nested value overflowed the native stack
+    drop_dead: Vec<(String, usize)>,
 }
 
 impl Ctx {
@@ -69,9 +71,20 @@ impl Ctx {
                         // from *unbounded recursion in the script*; here the recursion is the
                         // runtime's own traversal of a finite value, so it is reported.)
                         let site = Site { file: "<abort>".into(), function: "native-stack-overflow".into() };
-                        let key = format!("<abort>::native-stack-overflow via {:?}", c.apis.first());
+                        // cause rule for the extreme-depth cases: if dropping alone dies at this kind
+                        // and a depth <= this one, this death is the drop's
+                        let mut apis = c.apis.clone();
+                        let depth_tag = c.apis.iter().find_map(|a| a.strip_prefix("depth:")).and_then(|t| t.split_once(':')).and_then(|(k, d)| d.parse::<usize>().ok().map(|d| (k.to_string(), d)));
+                        if let Some((kind, depth)) = &depth_tag {
+                            if c.apis.iter().any(|a| a == "deep:drop") {
+                                self.drop_dead.push((kind.clone(), *depth));
+                            } else if self.drop_dead.iter().any(|(k, d)| k == kind && d <= depth) {
+                                apis = vec!["deep:drop".to_string()];
+                            }
+                        }
+                        let key = format!("<abort>::native-stack-overflow via {:?}{}", apis.first(), depth_tag.as_ref().map(|(k, d)| format!(" ({} nested {})", k, d)).unwrap_or_default());
                         *self.sites_seen.entry(key.clone()).or_insert(0) += 1;
-                        match attribute(&self.known, &site, "stack overflow", &c.apis) {
+                        match attribute(&self.known, &site, "stack overflow", &apis) {
                             Some(id) => {
                                 let e = self.known_hits.entry(id).or_insert((0, c.text.clone()));
                                 e.0 += 1;
@@ -195,6 +208,7 @@ fn explore(cx: &mut Ctx, rng: &mut Rng) {
         control_flow_cases(thorough, rng, &mut sink);
         register_pressure_cases(thorough, &mut sink);
         iterator_reentrancy_cases(&sweep.eps, &mut sink);
+        extreme_depth_cases(&mut sink);
     }
     if let Some(f) = &only {
         cases.retain(|c| c.apis.iter().any(|a| a.contains(f.as_str())));
@@ -224,6 +238,7 @@ fn explore(cx: &mut Ctx, rng: &mut Rng) {
         control_flow_cases(thorough, rng, &mut sink);
         register_pressure_cases(thorough, &mut sink);
         iterator_reentrancy_cases(&sweep.eps, &mut sink);
+        extreme_depth_cases(&mut sink);
     }
     let cases = std::mem::take(&mut b.buf);
     eprintln!("[c06] control-flow / register-pressure / iterator-reentrancy cases: {}", cases.len());
@@ -457,6 +472,7 @@ fn main() {
         thorough,
         sites_seen: BTreeMap::new(),
         site_apis: BTreeMap::new(),
+        drop_dead: vec![],
     };
 
     if let Some(p) = &args.replay {
